@@ -2,8 +2,11 @@
 package c16
 
 import (
+	"strconv"
+
 	"bytes"
 	"fmt"
+	"github.com/whatap/golib/config"
 	"runtime"
 	"sync"
 	"sync/atomic"
@@ -124,7 +127,7 @@ func decodePayload(zp *pack.ZipPack) (recs [][]byte, rawLen int, err error) {
 }
 
 // verifyEmitted checks everything the statement says about the emitted packs, given the expected batches.
-func verifyEmitted(cl *recClient, batches [][][]byte, zipMin int, checkBatches bool) error {
+func verifyEmitted(cl *recClient, batches [][][]byte, zipMin int, checkBatches bool, zipMins ...[]int) error {
 	cl.mu.Lock()
 	defer cl.mu.Unlock()
 	if cl.other > 0 {
@@ -146,6 +149,9 @@ func verifyEmitted(cl *recClient, batches [][][]byte, zipMin int, checkBatches b
 		}
 		if zp.RecordCount != len(recs) {
 			return fmt.Errorf("emitted pack %d: RecordCount=%d but the payload holds %d records", i, zp.RecordCount, len(recs))
+		}
+		if len(zipMins) > 0 && i < len(zipMins[0]) {
+			zipMin = zipMins[0][i] // the compression minimum in force when this batch was emitted
 		}
 		if want := rawLen >= zipMin; (zp.Status == pack.ZIPPED) != want {
 			return fmt.Errorf("emitted pack %d: payload of %d bytes, minimum size for compression %d, compressed=%v", i, rawLen, zipMin, zp.Status == pack.ZIPPED)
@@ -186,6 +192,52 @@ func verifyEmitted(cl *recClient, batches [][][]byte, zipMin int, checkBatches b
 type Op struct {
 	K    string `json:"k"` // append | senddirect | flush
 	Recs []Rec  `json:"recs,omitempty"`
+	// KeepPending (senddirect): records appended earlier and not yet flushed stay pending across the call
+	KeepPending bool `json:"keep_pending,omitempty"`
+	// config: a configuration update puts these settings in force (buffer size, waiting time, compression minimum)
+	Buf, Wait, ZipMin int
+}
+
+// mapConf is the configuration handed to ApplyConfig.
+type mapConf map[string]string
+
+func (m mapConf) ApplyDefault()              {}
+func (m mapConf) GetConfFile() string        { return "" }
+func (m mapConf) Destroy()                   {}
+func (m mapConf) GetKeys() []string          { return nil }
+func (m mapConf) GetValue(key string) string { return m[key] }
+func (m mapConf) GetValueDef(key, def string) string {
+	if v, ok := m[key]; ok && v != "" {
+		return v
+	}
+	return def
+}
+func (m mapConf) GetBoolean(key string, def bool) bool { return def }
+func (m mapConf) GetInt(key string, def int) int32 {
+	if v, err := strconv.Atoi(m[key]); err == nil {
+		return int32(v)
+	}
+	return int32(def)
+}
+func (m mapConf) GetIntSet(key, def, deli string) []int32 { return nil }
+func (m mapConf) GetLong(key string, def int64) int64 {
+	if v, err := strconv.ParseInt(m[key], 10, 64); err == nil {
+		return v
+	}
+	return def
+}
+func (m mapConf) GetStringArray(key string, def string, deli string) []string { return nil }
+func (m mapConf) GetStringHashSet(key, def, deli string) []int32              { return nil }
+func (m mapConf) GetStringHashCodeSet(key, def, deli string) []int32          { return nil }
+func (m mapConf) GetFloat(key string, def float32) float32                    { return def }
+func (m mapConf) SetValues(v *map[string]string)                              {}
+func (m mapConf) ToString() string                                            { return fmt.Sprint(map[string]string(m)) }
+func (m mapConf) String() string                                              { return m.ToString() }
+
+var _ config.Config = mapConf{}
+
+func settingsConf(buf, wait, zipMin int) mapConf {
+	return mapConf{"max_buffer_size": strconv.Itoa(buf), "max_wait_time": strconv.Itoa(wait), "logsink_zip_min_size": strconv.Itoa(zipMin), "logsink_queue_size": "1000"}
 }
 
 type SeqCase struct {
@@ -219,7 +271,16 @@ func runSeq(c SeqCase) *pbt.Result {
 		}
 		cur, curLen, first = nil, 0, 0
 	}
-	belowZip, badRecords := 0, 0
+	belowZip, badRecords, mixed, reconfigured := 0, 0, 0, 0
+	var zipMinOf []int // compression minimum in force when batch i was emitted
+	closeBatch := flush
+	flush = func() {
+		n := len(batches)
+		closeBatch()
+		if len(batches) > n {
+			zipMinOf = append(zipMinOf, c.ZipMin)
+		}
+	}
 	for _, op := range c.Ops {
 		switch op.K {
 		case "append":
@@ -245,6 +306,12 @@ func runSeq(c SeqCase) *pbt.Result {
 					flush()
 				}
 			}
+		case "config":
+			// a configuration update: the new settings are in force for everything that follows (pending records
+			// are judged by the new limits at the next append, as the sender reads its settings when it appends)
+			z.ApplyConfig(settingsConf(op.Buf, op.Wait, op.ZipMin))
+			c.Buf, c.Wait, c.ZipMin = op.Buf, op.Wait, op.ZipMin
+			reconfigured++
 		case "flush":
 			z.FlushForVerif()
 			flush()
@@ -269,31 +336,45 @@ func runSeq(c SeqCase) *pbt.Result {
 			if len(own) > 0 {
 				ownBatches = append(ownBatches, own)
 			}
-			// SendDirect emits its own packs immediately; the pending Append batch is not touched.
-			// To keep one global expected order, the pending batch is flushed first.
-			z.FlushForVerif()
-			flush()
+			// SendDirect emits its own packs immediately; the pending Append batch is not touched: it is emitted
+			// later, by its own trigger, with exactly its own records. In half of the cases the pending batch is
+			// flushed first, otherwise it stays pending across the call.
+			if !op.KeepPending {
+				z.FlushForVerif()
+				flush()
+			} else if len(cur) > 0 {
+				mixed++
+			}
 			z.SendDirect(arr)
 			batches = append(batches, ownBatches...)
+			for range ownBatches {
+				zipMinOf = append(zipMinOf, c.ZipMin)
+			}
 		}
 	}
 	z.FlushForVerif() // what the run loop does on stop
 	flush()
-	if err := verifyEmitted(cl, batches, c.ZipMin, true); err != nil {
+	if err := verifyEmitted(cl, batches, c.ZipMin, true, zipMinOf); err != nil {
 		return &pbt.Result{Err: err}
 	}
-	for _, b := range batches {
+	for bi, b := range batches {
 		n := 0
 		for _, e := range b {
 			n += len(e)
 		}
-		if n < c.ZipMin {
+		if n < zipMinOf[bi] {
 			belowZip++
 		}
 	}
 	classes := []string{fmt.Sprintf("batches=%s", bucket(len(batches))), fmt.Sprintf("uncompressed-batches=%s", bucket(belowZip))}
 	if badRecords > 0 {
 		classes = append(classes, "unencodable-record-in-history")
+	}
+	if mixed > 0 {
+		classes = append(classes, "send-direct-while-appended-records-are-pending")
+	}
+	if reconfigured > 0 {
+		classes = append(classes, "settings-changed-by-configuration-update")
 	}
 	return &pbt.Result{NT: len(batches) >= 2 && belowZip >= 1, Classes: classes}
 }
@@ -312,7 +393,7 @@ func bucket(n int) string {
 
 var specSeq = pbt.Register(pbt.Spec[SeqCase]{
 	Prop: "C16", Name: "append-histories",
-	Rule:  "histories of append / send-direct / flush on a fresh sender with generated settings (buffer 1..128 KiB, wait 1..10000 ms of record time, compression minimum 0..4 KiB) and a client that RETAINS the pack objects it is given; record contents 0..2x buffer, non-decreasing positive record times, one appended record in twenty unencodable (nil tag map: its encoding fails half way; nothing is asserted about it, it must not disturb the others); oracle = a model of the flush rule gives the expected batches: emitted packs hold exactly those batches in order, RecordCount = records contained, payload decodes (after gunzip iff flagged) to the records handed in, compressed iff payload >= minimum, and every retained pack still serialises at the end to what it was at hand-over; non-trivial = >= 2 batches and >= 1 uncompressed batch; distinct by case",
+	Rule:  "histories of append / send-direct (with or without appended records still pending) / flush / configuration update (ApplyConfig with new buffer size, waiting time and compression minimum, in force from then on) on a fresh sender with generated settings (buffer 1..128 KiB, wait 1..10000 ms of record time, compression minimum 0..4 KiB) and a client that RETAINS the pack objects it is given; record contents 0..2x buffer, non-decreasing positive record times, one appended record in twenty unencodable (nil tag map: its encoding fails half way; nothing is asserted about it, it must not disturb the others); oracle = a model of the flush rule gives the expected batches: emitted packs hold exactly those batches in order, RecordCount = records contained, payload decodes (after gunzip iff flagged) to the records handed in, compressed iff payload >= minimum, and every retained pack still serialises at the end to what it was at hand-over; non-trivial = >= 2 batches and >= 1 uncompressed batch; distinct by case",
 	Quick: 400, Thorough: 40000,
 	Draw: func(t *rapid.T) SeqCase {
 		c := SeqCase{
@@ -322,8 +403,18 @@ var specSeq = pbt.Register(pbt.Spec[SeqCase]{
 		}
 		n := rapid.IntRange(1, 12).Draw(t, "nops")
 		for i := 0; i < n; i++ {
-			k := rapid.SampledFrom([]string{"append", "append", "append", "append", "senddirect", "flush"}).Draw(t, "op")
+			k := rapid.SampledFrom([]string{"append", "append", "append", "append", "append", "senddirect", "flush", "config"}).Draw(t, "op")
 			op := Op{K: k}
+			if k == "config" {
+				op.Buf = rapid.OneOf(rapid.IntRange(1, 600), rapid.IntRange(1, 8192), rapid.IntRange(1, 131072)).Draw(t, "buf")
+				op.Wait = rapid.OneOf(rapid.IntRange(1, 50), rapid.IntRange(1, 10000)).Draw(t, "wait")
+				op.ZipMin = rapid.OneOf(rapid.IntRange(0, 200), rapid.IntRange(0, 4096)).Draw(t, "zipmin")
+				c.Ops = append(c.Ops, op)
+				continue
+			}
+			if k == "senddirect" {
+				op.KeepPending = rapid.Bool().Draw(t, "keeppending")
+			}
 			if k != "flush" {
 				m := rapid.IntRange(1, 6).Draw(t, "nrec")
 				for j := 0; j < m; j++ {
@@ -698,3 +789,76 @@ var specStop = pbt.Register(pbt.Spec[StopCase]{
 })
 
 func TestQueueStopRace(t *testing.T) { specStop.Check(t) }
+
+// ---- the queue's idle flush follows the waiting time in force ---------------------------------------------
+
+type IdleCase struct {
+	OldWait int   `json:"old_wait"` // ms, in force when the sender is created
+	NewWait int   `json:"new_wait"` // ms, put in force by a configuration update before the records arrive
+	Recs    []Rec `json:"recs"`
+}
+
+func runIdle(c IdleCase) *pbt.Result {
+	cl := &recClient{retain: true}
+	z := zip.NewForVerif(cl, true, int64(c.OldWait), 1000, 1<<20, 100)
+	defer z.StopForVerif()
+	// the update arrives while the sender is running: wait until its goroutine is inside the queue's timed get
+	for deadline := time.Now().Add(10 * time.Second); ; {
+		buf := make([]byte, 1<<20)
+		buf = buf[:runtime.Stack(buf, true)]
+		if i := bytes.Index(buf, []byte("zip.(*ZipSendProxyThread).run")); i >= 0 && bytes.Contains(buf, []byte("RequestQueue).GetTimeout")) {
+			break
+		}
+		if time.Now().After(deadline) {
+			return &pbt.Result{Classes: []string{"inconclusive:run-loop-not-started"}}
+		}
+		time.Sleep(time.Millisecond)
+	}
+	z.ApplyConfig(settingsConf(1<<20, c.NewWait, 100))
+	if w, _, _, _ := z.SettingsForVerif(); w != int64(c.NewWait) {
+		return pbt.Fail("after a configuration update with max_wait_time=%d the settings report %d ms", c.NewWait, w)
+	}
+	var batch [][]byte
+	tm := int64(1_700_000_000_000)
+	for i, r := range c.Recs {
+		tm += r.Dt % 3 // record times stay within the waiting time: only the idle time-out can flush
+		p := mkRecord(r, tm, int64(i+1))
+		batch = append(batch, encodeRec(p))
+		z.Add(p)
+	}
+	start := time.Now()
+	// the run loop polls its queue every (waiting time it last read)/3: with the previous setting still being waited
+	// on, the records are noticed within OldWait/3; from then on the waiting time in force (NewWait) decides. The
+	// bound below is OldWait*3/4: far more than OldWait/3 + NewWait, far less than a flush after OldWait.
+	bound := time.Duration(c.OldWait) * time.Millisecond * 3 / 4
+	for cl.count() == 0 && time.Since(start) < bound {
+		time.Sleep(5 * time.Millisecond)
+	}
+	took := time.Since(start)
+	if cl.count() == 0 {
+		return pbt.Fail("%d records were queued and then left alone; the waiting time in force is %d ms (changed from %d ms by a configuration update before they arrived), but %v later nothing has been flushed", len(c.Recs), c.NewWait, c.OldWait, took.Round(time.Millisecond))
+	}
+	// let the rest (if the loop split the records) arrive, then verify content
+	time.Sleep(time.Duration(3*c.NewWait+30) * time.Millisecond)
+	if err := verifyEmitted(cl, [][][]byte{batch}, 100, false); err != nil {
+		return &pbt.Result{Err: err}
+	}
+	pbt.Extra("idle-flush-follows-config", "last_flush_ms", took.Milliseconds())
+	return &pbt.Result{NT: true, Classes: []string{fmt.Sprintf("records=%d", len(c.Recs))}}
+}
+
+var specIdle = pbt.Register(pbt.Spec[IdleCase]{
+	Prop: "C16", Name: "idle-flush-follows-config",
+	Rule:  "a sender in queue mode is created with a waiting time of 5-7 s, a configuration update lowers it to 20-80 ms, then 1-3 small records are queued and left alone; the settings must report the new value and the records must be flushed by the idle time-out within 3/4 of the OLD waiting time (the run loop notices them within a third of the value it last read, then the value in force decides): the only timing verdict of this property, with a margin of more than 2 s on either side; non-trivial = every case; distinct by case",
+	Quick: 4, Thorough: 48,
+	Draw: func(t *rapid.T) IdleCase {
+		c := IdleCase{OldWait: rapid.IntRange(5000, 7000).Draw(t, "old"), NewWait: rapid.IntRange(20, 80).Draw(t, "new")}
+		for i := rapid.IntRange(1, 3).Draw(t, "n"); i > 0; i-- {
+			c.Recs = append(c.Recs, Rec{Content: rapid.IntRange(0, 200).Draw(t, "content"), Dt: rapid.Int64Range(0, 2).Draw(t, "dt"), Seed: rapid.Uint64().Draw(t, "seed")})
+		}
+		return c
+	},
+	Run: runIdle,
+})
+
+func TestIdleFlushFollowsConfig(t *testing.T) { specIdle.Check(t) }
